@@ -43,6 +43,7 @@ var modelTable = map[string]string{
 	"fmt.errorfWrap":                   "FmtErrorfWrap",
 	"internal/bytealg.IndexByteString": "StringsIndexByte",
 	"internal/bytealg.CountString":     "BytealgCountString",
+	"internal/bytealg.Count":           "BytealgCount",
 	"internal/bytealg.IndexByte":       "BytesIndexByte",
 	"internal/bytealg.Equal":           "BytesEqual",
 	"unicode/utf8.ValidString":         "Utf8ValidString",
